@@ -83,6 +83,32 @@ fn value_domain(t: u64, width: u32) -> Vec<u64> {
 }
 
 /// All single-field mutants of a file, each with all enclosing CRCs repaired.
+/// Non-zero padding patterns of length n that a check folding the bytes (xor, wrapping sum, "first byte", "last byte",
+/// "any byte with the top bit") would let through.
+fn pad_patterns(n: usize) -> Vec<Vec<u8>> {
+    let mut v: Vec<Vec<u8>> = Vec::new();
+    if n >= 2 {
+        for x in [0xFFu8, 0xC3, 0x01, 0x80] {
+            let mut p = vec![0u8; n];
+            p[0] = x;
+            p[1] = x; // xor-cancelling pair
+            v.push(p.clone());
+            p[0] = x;
+            p[1] = x.wrapping_neg(); // sum-cancelling pair
+            v.push(p);
+            v.push(vec![x; n]);
+        }
+    }
+    if n >= 3 {
+        v.push([vec![1u8, 2, 3], vec![0u8; n - 3]].concat());
+        v.push([vec![0u8; n - 3], vec![0x7Fu8, 0x40, 0x3F]].concat());
+    }
+    v.retain(|p| p.iter().any(|b| *b != 0));
+    v.sort();
+    v.dedup();
+    v
+}
+
 pub fn field_mutants(f: &XzFile) -> Vec<(String, XzFile)> {
     let mut out: Vec<(String, XzFile)> = Vec::new();
     let (_, spans) = xz::build(f);
@@ -244,6 +270,11 @@ pub fn field_mutants(f: &XzFile) -> Vec<(String, XzFile)> {
                 out.push((format!("index padding byte {} := {:#04x}", i, val), g));
             }
         }
+        for p in pad_patterns(b - a) {
+            let mut g = f.clone();
+            g.o_index_pad = Some(p.clone());
+            out.push((format!("index padding := {:02x?}", p), g));
+        }
     }
     // trailer
     for t in [vec![0u8], vec![0xFF], vec![0, 0, 0, 0], vec![0x59, 0x5A]] {
@@ -299,6 +330,13 @@ pub fn field_mutants(f: &XzFile) -> Vec<(String, XzFile)> {
                     out.push((format!("block {} header padding byte {} := {:#04x}", bi, i, val), g));
                 }
             }
+            for p in pad_patterns((b - a).min(8)) {
+                let mut q = p.clone();
+                q.resize(b - a, 0);
+                let mut g = f.clone();
+                g.blocks[bi].o_header_pad = Some(q);
+                out.push((format!("block {} header padding starts {:02x?}", bi, p), g));
+            }
             if b > a {
                 let mut p = vec![0u8; b - a];
                 p[b - a - 1] = 1;
@@ -325,6 +363,11 @@ pub fn field_mutants(f: &XzFile) -> Vec<(String, XzFile)> {
                     g.blocks[bi].o_block_pad = Some(p);
                     out.push((format!("block {} padding byte {} := {:#04x}", bi, i, val), g));
                 }
+            }
+            for p in pad_patterns(b - a) {
+                let mut g = f.clone();
+                g.blocks[bi].o_block_pad = Some(p.clone());
+                out.push((format!("block {} padding := {:02x?}", bi, p), g));
             }
         }
         {
